@@ -139,6 +139,21 @@ def run(rep: common.Report, tier: str, seed: int, replay=None) -> int:
     texts, recs_all = [], []
     for ci, cfg in enumerate(plans):
         run_case(rep, rng, ci, cfg, texts, recs_all)
+    # the documented update itself on the uniform state, over the range of gamma (psi = 1, mu = 0, epsilon = 1, Laplacian action 0):
+    # it has to return psi' = 1, |psi'|^2 = 1.  (gamma >= a few hundred: the discriminant (2c+1)^2 - 4|z|^2|w|^2 cancels catastrophically -
+    # known finding C17-large-gamma-uniform-state, not repaired: the expression is the one Model/Euler.v mirrors bit for bit.)
+    import scipy.sparse as _sp
+    from tdgl.solver.solver import TDGLSolver as _S
+    for gam_ in (0.0, 0.3, 1.0, 10.0, 30.0, 1e4):
+        one = np.ones(5, dtype=complex)
+        out_ = _S.solve_for_psi_squared(psi=one, abs_sq_psi=np.ones(5), mu=np.zeros(5), epsilon=np.ones(5), gamma=gam_, u=5.79, dt=1e-3,
+                                        psi_laplacian=_sp.csr_matrix((5, 5), dtype=complex))
+        dev_ = None if out_ is None else max(float(np.max(np.abs(out_[0] - 1.0))), float(np.max(np.abs(out_[1] - 1.0))))
+        if dev_ is None or dev_ > 1e-11:
+            rep.violation("the documented update moves the uniform state psi = 1 (mu = 0, epsilon = 1, no Laplacian action): "
+                          + ("refused" if dev_ is None else f"max |psi' - 1| = {dev_:.3e}"),
+                          {"gamma": gam_, "u": 5.79, "dt": 1e-3}, finding_key="C17-large-gamma-uniform-state" if gam_ >= 300 else None)
+        rep.count(1)
     outs = common.run_model_shards("c17_step", texts, jobs=8)
     ndis = 0
     for (rc, out), (r, case) in zip(outs, recs_all):
